@@ -22,6 +22,10 @@ import (
 
 var cur atomic.Pointer[Sched]
 
+// Heartbeat counts scheduler steps of the whole process (watchdog: a run that
+// keeps stepping is slow, not stuck).
+var Heartbeat atomic.Uint64
+
 // Cur returns the active scheduler or nil outside a run.
 func Cur() *Sched { return cur.Load() }
 
@@ -683,6 +687,7 @@ func (s *Sched) stepOnce() bool {
 	}
 	a := acts[idx]
 	n := s.step.Add(1)
+	Heartbeat.Add(1)
 	s.Decisions = append(s.Decisions, a.Key)
 	s.hash = HashStr(s.hash^uint64(len(acts)), a.Key)
 	if s.TraceOut != nil {
